@@ -164,6 +164,9 @@ pub fn run() {
       }
     }
   }
+  for (k, v) in per.iter().take(2) {
+    run.sample(json!({"scenario": k, "result": v}));
+  }
   run.set("states", json!(total_exec));
   run.set("transitions", json!(total_exec));
   run.set("traces_validated_against_impl", json!(total_exec));
